@@ -1370,7 +1370,11 @@ def oracle_sdb(run, ops, impl, prop):
                 have = W.acc.get(src, {"bal": 0})["bal"] // E12
                 if have < amt:
                     if res != "insufficient":
-                        out.append(V("%s:bank-move-without-funds-accepted" % prop, {"line": i + 1, "op": op}))
+                        # the mirror image of the case below: after a reverted frame that contained a bank-moving precompile call
+                        # the StateDB still shows the moved funds (C04-stale-balance) and the next flush writes them into the bank,
+                        # so a move the reference world cannot afford is accepted (thorough tier, seed 23)
+                        sig = "bank-view-stale-after-reverted-precompile-frame" if reverted_pre else "bank-move-without-funds-accepted"
+                        out.append(V("%s:%s" % (prop, sig), {"line": i + 1, "op": op}))
                         skip = True
                 else:
                     if res != "ok":
